@@ -345,8 +345,15 @@ fn emit_nodes_with_continuation(
                 let is_var = scope.is_variable_divert(target, context);
                 if !args.is_empty() {
                     out.push(json!("ev"));
-                    for arg in args {
-                        emit_expression_ctx(arg, &mut out.content, Some(context), Some(scope));
+                    for (index, arg) in args.iter().enumerate() {
+                        emit_call_argument(
+                            &resolved_target,
+                            index,
+                            arg,
+                            &mut out.content,
+                            Some(context),
+                            Some(scope),
+                        );
                     }
                     out.push(json!("/ev"));
                 }
@@ -375,21 +382,28 @@ fn emit_nodes_with_continuation(
             }
             Node::ThreadDivert(divert) => {
                 // <- target(args): ev, arg1, arg2, ..., /ev, "thread", {->: target}
+                let resolved = scope.resolve_divert_target(&divert.target, context);
                 if !divert.arguments.is_empty() {
                     out.push(json!("ev"));
-                    for arg in &divert.arguments {
+                    for (index, arg) in divert.arguments.iter().enumerate() {
                         // Resolve DivertTarget arguments with full scope path
                         if let Expression::DivertTarget(target) = arg {
                             let resolved = scope.resolve_divert_target(target, context);
                             out.push(json!({"^->": resolved}));
                         } else {
-                            emit_expression_ctx(arg, &mut out.content, Some(context), Some(scope));
+                            emit_call_argument(
+                                &resolved,
+                                index,
+                                arg,
+                                &mut out.content,
+                                Some(context),
+                                Some(scope),
+                            );
                         }
                     }
                     out.push(json!("/ev"));
                 }
                 out.push(json!("thread"));
-                let resolved = scope.resolve_divert_target(&divert.target, context);
                 out.push(json!({"->": resolved}));
             }
             Node::ReturnBool(value) => {
